@@ -59,7 +59,7 @@ def main(argv=None):
     ap.add_argument("--deadline", type=float, default=0)
     ap.add_argument("--out", required=True)
     ap.add_argument("--replay")
-    ap.add_argument("--case-timeout", type=int, default=60)
+    ap.add_argument("--case-timeout", type=int, default=20)
     ap.add_argument("--digests", action="store_true")
     args = ap.parse_args(argv)
 
@@ -139,15 +139,20 @@ def main(argv=None):
             check = v[0]
 
             def fails(c):
-                signal.alarm(args.case_timeout)
+                signal.alarm(10)
                 try:
                     rr = P.run(c, args.build)
+                except CaseTimeout:
+                    return False
                 finally:
                     signal.alarm(0)
                 return any(x[0] == check for x in rr["violations"])
 
-            small, tried = shrink.minimise(case, fails, *P.shrink_budget(args.tier))
-            rs = run_case(small)
+            if check == "hang":
+                small, tried = case, 0  # every candidate would cost a full timeout
+            else:
+                small, tried = shrink.minimise(case, fails, *P.shrink_budget(args.tier))
+            rs = r if small is case else run_case(small)
             vs = [x for x in rs["violations"] if x[0] == check]
             if not vs:  # should not happen (deterministic); fall back to the original
                 small, rs, vs = case, r, [v]
